@@ -61,6 +61,10 @@ def values_for(size, signed, seed, small=False):
               7, int("55" * size, 16), 13, 3]
     if small:
         vs = vs[:5] + [vs[7]]
+    if bits == 64:
+        # the 32-bit boundaries matter as soon as a 4-byte operand makes the
+        # narrowest width 32
+        vs += [-(1 << 31)] if signed else [(1 << 32) - 1]
     import random
     rnd = random.Random(seed * 1000 + bits + signed)
     for _ in range(1 if small else 2):
@@ -579,12 +583,13 @@ def run(ctx):
         items.append(("un", (lt, dests), ctx.seed, ctx.quick, ke))
     # depth 2
     if ctx.quick:
-        l2 = [("reg", "r"), ("reg", "sw"), ("loc", "h"), ("const", 3)]
+        l2 = [("reg", "r"), ("reg", "sw"), ("loc", "h"), ("const", 3),
+              ("reg", "sr")]
         d2 = [("reg", "sr"), ("loc", "i")]
-        ops1 = ["+", "//", ">>", "*", "-"]
+        ops1 = ["+", "//", ">>", "*"]
     else:
         l2 = [("reg", "r"), ("reg", "sw"), ("reg", "w"), ("loc", "h"),
-              ("loc", "Q"), ("const", 3), ("const", -2)]
+              ("loc", "Q"), ("const", 3), ("const", -2), ("reg", "sr")]
         d2 = [("reg", "r"), ("reg", "sw"), ("loc", "q")]
         ops1 = list(OPS)
     for a, b, c in itertools.product(l2, repeat=3):
